@@ -229,7 +229,7 @@ func c20FieldShape(c *eng.Ctx) {
 	// ---- evaluate: Horner from the top coefficient down to coefficient 0
 	if f := c.Fn("shamir.(*polynomial).evaluate"); f != nil && len(f.Params) == 2 {
 		c.Clause("R5", "C20.5e")
-		p, x := regexp.QuoteMeta(f.Params[0].Name()), regexp.QuoteMeta(f.Params[1].Name())
+		p, x := regexp.QuoteMeta(eng.VarName(f.Params[0])), regexp.QuoteMeta(eng.VarName(f.Params[1]))
 		co := p + `\.coefficients`
 		idx := `φ[\w.]*\{\(len\(` + co + `\) - 1\) - 1\|φ[\w.]* - 1\}`
 		horner := regexp.MustCompile(`^φ[\w.]*\{` + co + `\[len\(` + co + `\) - 1\]\|shamir\.add\(shamir\.mult\(φ[\w.]*, ` + x + `\), ` + co + `\[` + idx + `\]\)\}$`)
@@ -352,7 +352,7 @@ func c20Interpolate(c *eng.Ctx, f *ssa.Function) {
 	case pi == nil || pj == nil:
 		c.Violation(f, site, dv.Pos(), "a sample index is not a counter starting at 0 and stepping by 1", nil)
 	case !bounded(pi) || !bounded(pj):
-		c.Violation(f, site, dv.Pos(), "a counter is not bounded by len("+xs.Name()+"): some pair of samples is skipped or an index runs past the samples", nil)
+		c.Violation(f, site, dv.Pos(), "a counter is not bounded by len("+eng.VarName(xs)+"): some pair of samples is skipped or an index runs past the samples", nil)
 	case !pi.Block().Dominates(pj.Block()) || pi.Block() == pj.Block():
 		c.Violation(f, site, dv.Pos(), "the numerator's index j is not the inner loop counter", nil)
 	default:
